@@ -172,8 +172,10 @@ fn run_inner(rng: &mut Rng, dir: &str) -> CaseOut {
         fopts.domains = vec!["d".to_string()];
         fopts.domain_pct = 40;
     }
-    let count = rng.range(1, 4);
+    // now and then a file without any formula (comments / blank lines only)
+    let count = if rng.chance(1, 15) { 0 } else { rng.range(1, 4) };
     let mut forms = gen_batch(rng, &fopts, &world.net.names, count);
+    let no_formulae = forms.is_empty();
     if extended {
         // results that are derived directly from a context set (the set is the left-most operand), and at
         // least one formula with a state variable so that the tool's graph differs from the plain encoding
@@ -187,7 +189,7 @@ fn run_inner(rng: &mut Rng, dir: &str) -> CaseOut {
                 };
             }
         }
-        if forms.iter().all(|f| f.quant_depth() == 0) {
+        if !no_formulae && forms.iter().all(|f| f.quant_depth() == 0) {
             forms.push(hyb(Hyb::Bind, "x", Some("d"), un(Un::EX, var("x"))));
         }
     }
@@ -237,6 +239,9 @@ fn run_inner(rng: &mut Rng, dir: &str) -> CaseOut {
     let output_path = format!("{dir}/out/results.zip");
     let mut out = CaseOut::new(format!("{}|{:?}|{}|{}|{}|{:?}", world.net.to_aeon(), file, print_opt, with_output, extended, error_kind));
     out.count(&format!("print_{print_opt}"));
+    if no_formulae {
+        out.count("formula_files_without_formulae");
+    }
     out.count(&format!("format_{format}"));
 
     // library side: graph of the size the tool will choose, context sets for that graph
